@@ -340,6 +340,15 @@ func e2eComponent(r *hx.Run) {
 			}
 			add(e2eCase{kind: kind, sub: sub, src: fmt.Sprintf("net:%d/%d", base, ones), ports: ports,
 				excl: e.randExcl(subnetAddrs(base, ones)), split: 3})
+			// … and lists that overlap across the two options: a range of the file nested in a range of -p (and the
+			// other way round): the ranges are appended as they are, each port of each range is probed
+			p0 := 1 + rng.Intn(60000)
+			nested := fmt.Sprintf("%d-%d,%d-%d", p0, p0+5+rng.Intn(3), p0+1+rng.Intn(2), p0+3)
+			if rng.Intn(2) == 0 {
+				nested = fmt.Sprintf("%d-%d,%d-%d", p0+2, p0+3, p0, p0+6)
+			}
+			b2 := (labNet | uint32(16+rng.Intn(200))) &^ 1
+			add(e2eCase{kind: kind, sub: sub, src: fmt.Sprintf("net:%d/31", b2), ports: nested, excl: "none", split: 3})
 		}
 		// the tun device (an interface without a MAC address: vpn mode): subnet, and an address file with -i;
 		// always with an exclusion (it is read on another path than on Ethernet), never with an ARP cache
